@@ -107,6 +107,13 @@ func (l *Lexer) NextToken() Token {
 	case '.':
 		tok = newToken(DOT, l.ch)
 	case 0:
+		if l.position < len(l.input) {
+			// a NUL byte inside the input is an illegal character, not the end of the input
+			tok = newToken(ILLEGAL, l.ch)
+
+			break
+		}
+
 		tok.Literal = ""
 		tok.Type = EOF
 	default:
